@@ -450,14 +450,21 @@ func mergeConstC12(c *Ctx, ltSSA *ssa.Function) {
 							continue
 						}
 						bo, ok := ifi.Cond.(*ssa.BinOp)
-						if !ok || bo.Op != token.EQL || !types.Identical(bo.X.Type(), dt) {
+						if !ok || (bo.Op != token.EQL && bo.Op != token.NEQ) || !types.Identical(bo.X.Type(), dt) {
 							continue
 						}
 						z, ok := bo.Y.(*ssa.Const)
 						if !ok || z.Value == nil || constant.Sign(z.Value) != 0 {
 							continue
 						}
-						if d.Succs[0] == pred || d.Succs[0].Dominates(pred) {
+						if _, isPhi := bo.X.(*ssa.Phi); !isPhi {
+							continue // a test of something other than the accumulating variable
+						}
+						succ := d.Succs[0] // typ == Unknown: true branch
+						if bo.Op == token.NEQ {
+							succ = d.Succs[1] // typ != Unknown: false branch
+						}
+						if succ == pred || succ.Dominates(pred) {
 							guarded = true
 						}
 					}
